@@ -183,6 +183,9 @@ dist('chi_squared', 'ChiSquared')
 m('chi_squared', 'ChiSquared', 'new', ret='r', valid='dof > 0', panics={1: 'REJECT'},
   ensures=['C18.chi.new.valid:: dof > 0', 'C18.chi.new.fresh:: r == fresh_chi(dof)'])
 setter('chi_squared', 'ChiSquared', 'set_dof', 'dof', 'dof > 0', 'fresh_chi(dof)')
+m('chi_squared', 'ChiSquared', 'update', trait='Distribution1D', valid='f_to_int(params@[0]) > 0', float_casts=(1,),
+  requires=['C18.chi.update.len:: params@.len() >= 1', 'C18.chi.update.range:: 0 <= f_to_int(params@[0]) <= usize::MAX'],
+  ensures=['C18.chi.update.valid:: f_to_int(params@[0]) > 0', 'C18.chi.update.fresh:: *final(self) == fresh_chi(f_to_int(params@[0]) as usize)'])
 m('chi_squared', 'ChiSquared', 'pdf', trait='Continuous', ret='r',
   ensures=['C02.chi.pdf.support:: rv(x) < 0real ==> rv(r) == 0real',
            'C02.chi.pdf.formula:: rv(x) > 0real && self.dof > 0 ==> rv(r) == 1real / (r_pow(2real, (self.dof as real) / 2real) * r_gamma((self.dof as real) / 2real)) * r_pow(rv(x), (self.dof as real) / 2real - 1real) * r_exp(-(rv(x) / 2real))'],
@@ -269,6 +272,10 @@ m('discreteuniform', 'DiscreteUniform', 'new', ret='r', valid='lower <= upper', 
   ensures=['C18.du.new.valid:: lower <= upper', 'C18.du.new.fresh:: r == (DiscreteUniform { lower: lower, upper: upper })'])
 setter('discreteuniform', 'DiscreteUniform', 'set_lower', 'lower', 'lower <= old(self).upper', '(DiscreteUniform { lower: lower, upper: old(self).upper })')
 setter('discreteuniform', 'DiscreteUniform', 'set_upper', 'upper', 'old(self).lower <= upper', '(DiscreteUniform { lower: old(self).lower, upper: upper })')
+m('discreteuniform', 'DiscreteUniform', 'update', trait='Distribution1D', valid='f_to_int(params@[0]) <= f_to_int(params@[1])', panics={1: 'REJECT'}, float_casts=(1, 2),
+  requires=['C18.du.update.len:: params@.len() >= 2', 'C18.du.update.range:: i64::MIN <= f_to_int(params@[0]) <= i64::MAX && i64::MIN <= f_to_int(params@[1]) <= i64::MAX'],
+  ensures=['C18.du.update.valid:: f_to_int(params@[0]) <= f_to_int(params@[1])',
+           'C18.du.update.fresh:: *final(self) == (DiscreteUniform { lower: f_to_int(params@[0]) as i64, upper: f_to_int(params@[1]) as i64 })'])
 m('discreteuniform', 'DiscreteUniform', 'pmf', trait='Discrete', ret='r',
   requires=['C02.du.range:: self.lower <= self.upper && self.upper - self.lower < 0x7fff_ffff_ffff_ffff'],
   ensures=['C02.du.pmf.support:: (x < self.lower || x > self.upper) ==> rv(r) == 0real',
@@ -302,6 +309,9 @@ setter('binomial', 'Binomial', 'set_n', 'n', 'true', '(Binomial { n: n, p: old(s
 setter('binomial', 'Binomial', 'set_p', 'p', BV, '(Binomial { n: old(self).n, p: p })')
 BINOM_FN = Fn('functions::combinatorial::binom_coeff', ret='r', level='L1', ensures=['A.binom_coeff:: r == binom_fn(n, k)'])
 STUBS.append(BINOM_FN)
+m('binomial', 'Binomial', 'update', trait='Distribution1D', valid=BV.replace('rv(p)', 'rv(params@[1])'), float_casts=(1,),
+  requires=['C18.binomial.update.len:: params@.len() >= 2', 'C18.binomial.update.range:: 0 <= f_to_int(params@[0]) <= u64::MAX'],
+  ensures=['C18.binomial.update.valid:: ' + BV.replace('rv(p)', 'rv(params@[1])'), 'C18.binomial.update.fresh:: *final(self) == (Binomial { n: f_to_int(params@[0]) as u64, p: params@[1] })'])
 m('binomial', 'Binomial', 'pmf', trait='Discrete', ret='r',
   requires=['C02.binomial.range:: self.n <= 0x7fff_ffff'],
   ensures=['C02.binomial.pmf.support:: (k < 0 || k > self.n) ==> rv(r) == 0real',
